@@ -34,6 +34,8 @@ for d in sorted(glob.glob(os.path.join(V, "seeded", "C*-*"))):
     v, s = cell(key)
     if m.get("neutralised_by"):
         v += f" (expected: neutralised by fix {m['neutralised_by']['commit']})"
+    if m.get("outside_quantified_space"):
+        v += " (expected: needs an I/O fault the property does not quantify over)"
     esc = lambda t: (t or "").replace("|", "/").replace("\n", " ")
     out.append(f"| {m['id']}{' (ported)' if pf!='patch.diff' else ''} | {esc(m.get('change'))} | {esc(m.get('needs_to_manifest'))} | {v} | {esc(s)} |")
 for p in sorted(glob.glob(os.path.join(V, "mutants", "*.diff"))):
